@@ -233,6 +233,15 @@ def gen_trees(thorough):
             for name in (None, "NAMEA") + (("Name_b2",) if w <= 2 else ()):
                 d1.append(("list", name, list(combo)))
     yield from d1
+    # names that coincide with words the library uses itself (the default key of an unnamed array, ...): a name is a name
+    for name in ("DATA", "Data", "NAME", "VALUE"):
+        for w in (1, 2):
+            for combo in itertools.product(items[:3], repeat=w):
+                yield ("list", name, list(combo))
+                yield ("list", None, [items[3], ("list", name, list(combo))])
+                yield ("list", "OUTER", [("list", name, list(combo)), items[3]])
+        yield ("list", None, [items[0], ("list", name, [("list", "RPT", [items[1], items[2]])])])
+        yield ("list", name, [("list", "RPT", [items[1], items[2]])])
     # representative depth-1 lists used as children
     rep_items = items[:2]
     rep1 = []
